@@ -15,7 +15,7 @@ Serves C01 C02 C03 C05 C08 C17 C19.  Grammar (one request per line):
   rawframe <dev> <hex>              deliver an arbitrary 626-byte frame (not SDK-producible)
 
 <dg> ::= clear | sync | fan b | reads b | cpugpio v | gpioin flags | debug v0 v1 v2 v3
-       | phasecorr seed | pwe seed | silsteps i p strict | silrate i p
+       | phasecorr seed | pwe seed | pwedefault | modraw seg tr rep div hex | silsteps i p strict | silrate i p
        | gain seg tr seed | mod seg tr rep div n seed | foci N seg tr rep div ss size seed
        | gainstm mode seg tr rep div size seed | swapgain seg tr | swapmod seg tr | swapfoci seg tr
        | swapgainstm seg tr | firminfo ty | pair <dg> | <dg>
@@ -80,6 +80,11 @@ def parseDg1 (ws : List String) (dev : Nat) : Option (Dg × List String) :=
     let sd ← sd.toNat?
     let b := prBytes sd 512
     pure (.pwe ((Array.range 256).map fun i => (rd b (2 * i) + 256 * rd b (2 * i + 1)) % 512), r)
+  | "pwedefault" :: r => some (.pwe ((Array.range 256).map Autd3.Gen.Tables.drvAsin), r)
+  | "modraw" :: seg :: tr :: rep :: div :: hx :: r => do
+    let seg ← seg.toNat?; let tr ← parseTr tr; let rep ← rep.toNat?; let div ← div.toNat?
+    let bytes ← hexBytes hx
+    pure (.modulation seg tr rep div bytes, r)
   | "silsteps" :: i :: p :: st :: r => do let i ← i.toNat?; let p ← p.toNat?; let st ← st.toNat?; pure (.silencerSteps i p (st = 1), r)
   | "silrate" :: i :: p :: r => do let i ← i.toNat?; let p ← p.toNat?; pure (.silencerRate i p, r)
   | "gain" :: seg :: tr :: sd :: r => do
